@@ -5,15 +5,16 @@ from . import core, tv
 
 
 def run_property(pid, cases, tier, chunk=30, title='', bounds=None, cfg=None, extra_evidence=None, level='translation_validation',
-                 assumptions=None, post=None):
+                 assumptions=None, post=None, z3_timeout_ms=30000):
     t0 = time.time()
     work = os.path.join(core.scratch(), pid)
     os.makedirs(work, exist_ok=True)
     known = core.load_known(pid)
-    rep = tv.check_cases(cases, work, chunk=chunk, cfg=cfg, known=known)
+    rep = tv.check_cases(cases, work, chunk=chunk, cfg=cfg, known=known, z3_timeout_ms=z3_timeout_ms)
     violations = 0
     lines = []
-    replay_root = os.path.join(core.VERIF, 'evidence', 'replay', pid)
+    noev = bool(os.environ.get('VERIF_NO_EVIDENCE'))     # used when trying seeded changes: leave the committed evidence alone
+    replay_root = os.path.join(core.scratch() if noev else os.path.join(core.VERIF, 'evidence'), 'replay', pid)
     shutil.rmtree(replay_root, ignore_errors=True)
     confirmed, spurious = [], []
     for v in rep.violations:
@@ -79,7 +80,8 @@ def run_property(pid, cases, tier, chunk=30, title='', bounds=None, cfg=None, ex
         ev['coverage'].update(extra_evidence)
     if post:
         post(ev, rep)
-    core.write_evidence(pid, ev)
+    if not noev:
+        core.write_evidence(pid, ev)
     print('%s %s: %d cases, %d verified for all inputs, %d inconclusive, %d violations, %d known-finding hits, %d spurious; %d paths, %.1fs' % (
         pid, tier, rep.cases, n_verified, ev['coverage']['cases_inconclusive'], violations, len(rep.known_hits), len(spurious), rep.paths, time.time() - t0))
     if getattr(rep, 'solver_errors', None):
